@@ -111,6 +111,67 @@ pub fn gen_setop_case(t: &mut Tape) -> Case {
     Case { db, prog, target, flags: vec!["setop_wild".into()], names }
 }
 
+/// A group key that names a column more than once is the same key: `group {k, k} (take 1)` keeps one
+/// row per value of k. Which row is open (no order), the number of rows is not: it is the number of
+/// distinct key values of the table.
+#[derive(Clone, Debug, Serialize, Deserialize)]
+pub struct RepeatedKeyCase {
+    pub db: Db,
+    pub source: String,
+    pub target: String,
+    pub expect_rows: usize,
+}
+
+pub fn gen_repeated_key_case(t: &mut Tape) -> RepeatedKeyCase {
+    let target = if t.chance(1, 2) { "generic" } else { "sqlite" }.to_string();
+    let mut g = Gen::new(t, GenCfg::general());
+    g.gen_db();
+    let db = g.db.clone();
+    let t = g.t;
+    let tb = db.tables[t.choose(db.tables.len())].clone();
+    let ki = 1 + t.choose(tb.cols.len() - 1);
+    let mut oi = 1 + t.choose(tb.cols.len() - 1);
+    if oi == ki {
+        oi = if ki + 1 < tb.cols.len() { ki + 1 } else { 1.max(ki - 1) };
+    }
+    let (k, o, tn) = (tb.cols[ki].name.clone(), tb.cols[oi].name.clone(), tb.name.clone());
+    let (source, key_cols): (String, Vec<usize>) = match t.choose(5) {
+        0 => (format!("from {tn} | select {{{k}, {o}}} | group {{{k}, {k}}} (take 1) | select {{{k}, {o}}}"), vec![ki]),
+        1 => (format!("from {tn} | group {{{k}, {k}}} (take 1) | select {{{k}, zx = {o}}}"), vec![ki]),
+        2 => (format!("from {tn} | select {{{k}, {o}}} | group {{{k}, {tn}.{k}}} (take 1) | select {{{k}, {o}}}"), vec![ki]),
+        3 => (format!("from {tn} | select {{{k}, {o}, id}} | group {{{o}, {k}, {o}}} (take 1) | select {{{k}, {o}, id}}"), vec![ki, oi]),
+        _ => (format!("from {tn} | select {{{k}, {o}}} | filter true | group {{{k}, {k}}} (take 1) | select {{{o}, {k}}}"), vec![ki]),
+    };
+    let mut keys: Vec<String> = tb.rows.iter().map(|r| key_cols.iter().map(|i| crate::model::val::cell_key(&r[*i])).collect::<Vec<_>>().join("\u{1}")).collect();
+    keys.sort();
+    keys.dedup();
+    RepeatedKeyCase { db, source: format!("{source}\n"), target, expect_rows: keys.len() }
+}
+
+pub fn check_repeated_key(c: &RepeatedKeyCase, _known: &Known) -> Outcome {
+    let mut out = Outcome::pass();
+    out.key = hash_of(&(&c.source, &c.target, c.expect_rows));
+    let sql = match util::compile(&c.source, util::dialect_by_name(&c.target)) {
+        Compiled::Sql(s) => s,
+        Compiled::Err(_) => return Outcome::skip("rejected_by_compiler").class("rejected_by_compiler"),
+        Compiled::Panic(_) => return Outcome::skip("compiler_panic").class("compiler_panic"),
+    };
+    let res = match exec::run(&c.db, &sql) {
+        Ok(r) => r,
+        Err(e) => return Outcome::skip(&format!("not executable: {}", util::reason_class(e.msg()))).class("not_executable"),
+    };
+    out.nontrivial = c.expect_rows >= 2;
+    out.classes.push("repeated_group_key".into());
+    out.sample = Some(json!({"prql": c.source, "sql": sql, "rows": res.rows.len()}));
+    if res.rows.len() != c.expect_rows {
+        return Outcome::fail(
+            "a group key that repeats a column does not give one row per key value",
+            json!({"source": c.source, "sql": sql, "expected_rows": c.expect_rows, "got_rows": res.rows.len()}),
+        );
+    }
+    out
+}
+
 pub struct Judged {
     pub src: String,
     pub sql: Option<String>,
@@ -338,6 +399,10 @@ pub fn replay_case(case: &Value, known: &Known) -> Option<Outcome> {
 pub const RULE: &str = "abstract programs of the relational core decoded from a choice tape (scope- and type-directed), printed to PRQL, compiled for sqlite/generic, executed on in-process SQLite against a generated instance (NULLs, duplicates, empty tables, shared column names) and compared with an independent reference interpreter (values, multiplicities, order where a sort is in effect). non-trivial = compiles, some table non-empty, and the SQL has a CTE/sub-query, join, GROUP BY or window; distinct = hash of (source, target, instance)";
 
 pub fn replay_any(check_name: &str, case: &Value, known: &Known) -> Option<Outcome> {
+    if check_name == "repeated-group-key" {
+        let c: RepeatedKeyCase = serde_json::from_value(case.clone()).ok()?;
+        return Some(check_repeated_key(&c, known));
+    }
     if check_name == "distinct-on-order" {
         let c: crate::prop::c03::DistinctOnCase = serde_json::from_value(case.clone()).ok()?;
         return Some(crate::prop::c03::check_distinct_on(&c, known));
@@ -389,6 +454,7 @@ pub fn run(ctx: &Ctx) -> i32 {
         |t| gen_case(t, cfg2.clone()),
         |c| check(c, &ctx.known),
     );
+    ctx.tape_search("repeated-group-key", ctx.n(2_000, 40_000), 80, gen_repeated_key_case, |c| check_repeated_key(c, &ctx.known));
     ctx.tape_search("distinct-on-order", ctx.n(3_000, 30_000), 12, crate::prop::c03::gen_distinct_on_case, |c| crate::prop::c03::check_distinct_on(c, &ctx.known));
     ctx.tape_search("setops-over-unknown-columns", ctx.n(3_000, 100_000), 120, gen_setop_case, |c| check(c, &ctx.known));
     let all_h: Vec<&'static str> = HAZARD_FINDINGS.iter().map(|(h, _)| *h).collect();
